@@ -8,7 +8,7 @@ Import ListNotations.
 Open Scope Z_scope.
 
 (* _resize returns without doing anything when ... *)
-Definition resize_noop (max_workers cur : Z) : bool := (max_workers <=? cur).
+Definition resize_noop (max_workers cur : Z) : bool := (max_workers =? cur).
 
 (* get_reusable_executor shuts the current executor down and builds a new one when ... *)
 Definition needs_new (broken shutdown reuse : bool) : bool := (broken || (shutdown || (negb reuse))).
